@@ -196,6 +196,31 @@ def md_item(d: Dict[str, Any]) -> List[str]:
     return ["bad", "ValueError", ""]
 
 
+def stable(o: Any) -> Any:
+    """A repr without object addresses: dataclasses field by field, type objects by class, text and pointer depth."""
+    import dataclasses
+
+    if dataclasses.is_dataclass(o) and not isinstance(o, type):
+        return {"<" + type(o).__name__ + ">": {f.name: stable(getattr(o, f.name)) for f in dataclasses.fields(o)}}
+    if isinstance(o, (list, tuple)):
+        return [stable(x) for x in o]
+    if isinstance(o, dict):
+        return {str(k): stable(v) for k, v in o.items()}
+    if isinstance(o, (str, int, float, bool)) or o is None:
+        return o
+    d = {"class": type(o).__name__, "str": str(o)}
+    for a in ("p_depth", "is_const"):
+        if hasattr(o, a):
+            d[a] = getattr(o, a)
+    if hasattr(o, "element_type"):
+        d["element"] = stable(o.element_type)
+    return d
+
+
+def srepr(o: Any) -> str:
+    return json.dumps(stable(o), sort_keys=True, default=str)
+
+
 def real_procmd(mds: List[Dict[str, Any]], keys: List[str]) -> Dict[str, Any]:
     """process_metadata on a clean registry; observation = which dictionary is in effect per key, ordered blocks."""
     import func_adl_xAOD.common.cpp_types as ctyp
@@ -212,8 +237,8 @@ def real_procmd(mds: List[Dict[str, Any]], keys: List[str]) -> Dict[str, Any]:
         it = md_item(d)
         if it[0] == "methodType":
             i = ctyp.method_type_info(d["type_string"], d["method_name"])
-            return f"{type(i.r_type).__name__}|{i.r_type}|{i.deref_depth}|{getattr(i.r_type, 'element_type', '')}"
-        return repr(r[0]) if r else ""
+            return srepr([i.r_type, i.deref_depth])
+        return srepr(r[0]) if r else ""
 
     try:
         solos = {json.dumps(d, sort_keys=True): solo(d) for d in mds}
@@ -229,17 +254,17 @@ def real_procmd(mds: List[Dict[str, Any]], keys: List[str]) -> Dict[str, Any]:
     for k in keys:
         ty, _, m = k.rpartition("::")
         i = ctyp.method_type_info(ty, m) if ty else None
-        types.append(None if i is None else f"{type(i.r_type).__name__}|{i.r_type}|{i.deref_depth}|{getattr(i.r_type, 'element_type', '')}")
+        types.append(None if i is None else srepr([i.r_type, i.deref_depth]))
     fns: Dict[str, str] = {}
     for s in r:
         if isinstance(s, (CPPCodeSpecification, EventCollectionSpecification)):
-            fns[s.name] = repr(s)
+            fns[s.name] = srepr(s)
     ctyp.g_method_type_dict = {}
     return {
         "types": types,
         "fns": [fns.get(k) for k in keys],
-        "injects": [[b.name, repr(b)] for b in r if isinstance(b, InjectCodeBlock)],
-        "scripts": [[b.name, repr(b)] for b in r if isinstance(b, JobScriptSpecification)],
+        "injects": [[b.name, srepr(b)] for b in r if isinstance(b, InjectCodeBlock)],
+        "scripts": [[b.name, srepr(b)] for b in r if isinstance(b, JobScriptSpecification)],
         "solos": solos,
     }
 
@@ -384,6 +409,8 @@ def decide_variant(v: Dict[str, Any], ans: Dict[str, Any], commuting: bool) -> O
         return "excluded:metadata-order"
     if ans.get("argNameRisk"):
         return "excluded:arg-names"
+    if ans.get("aliasRisk"):
+        return "excluded:shared-node-rewrite"
     if v["kind"].startswith(("alpha", "combined", "wire+")) and ans.get("shadowRisk"):
         return "excluded:shadow-capture"
     if rel["kind"] in ("fuse", "nf"):
@@ -443,7 +470,7 @@ def process_cases(ctx, cases: List[Case], stream: str, tie: bool = True) -> List
                 reqs.append({"op": "strip", "q": T.to_json(v["term"])})
             # simplify_chained_calls on base and on every variant (excluded ones too: the model must follow the code there as well)
             seen = set()
-            for t in [c.q] + [v["rel"]["q2"] for v in c.variants if v["rel"]["kind"] in ("alpha", "fuse", "nf", "style")]:
+            for t in [c.base] + [v["rel"]["q2"] for v in c.variants if v["rel"]["kind"] in ("alpha", "fuse", "nf", "style", "combined")]:
                 try:
                     pre = pre_simplify(Vr.strip_py(t)[0])
                 except T.Unrepresentable:
@@ -451,6 +478,8 @@ def process_cases(ctx, cases: List[Case], stream: str, tie: bool = True) -> List
                 if pre in seen:
                     continue
                 seen.add(pre)
+                plan.append(("pre", (c, t, pre)))
+                reqs.append({"op": "pre", "q": T.to_json(t)})
                 rs = real_simp(pre)
                 if "skip" in rs:
                     ctx.count("tie-skip:simp")
@@ -468,10 +497,17 @@ def process_cases(ctx, cases: List[Case], stream: str, tie: bool = True) -> List
     ctx.check_time()
     ans = ctx.driver(DRIVER, pk.puts + reqs)[len(pk.puts) :]
     failures: List[Dict[str, Any]] = []
+    alias = False
     for (what, payload), a in zip(plan, ans):
         if "bad" in a:
             continue
-        if what == "same":
+        if what == "pre":
+            c, t, pre = payload
+            ctx.count("tie:pre")
+            alias = bool(a.get("aliasRisk"))
+            if T.of_json(a["q"]) != pre:
+                ctx.disagreement("change_extension_functions_to_calls+aggregate_node_transformer", {"term": T.show(t)}, T.show(T.of_json(a["q"])), T.show(pre))
+        elif what == "same":
             c, v = payload
             strict = v["strict"]
             holds = a["strict"] if strict else a["diag"]
@@ -493,7 +529,10 @@ def process_cases(ctx, cases: List[Case], stream: str, tie: bool = True) -> List
         elif what == "simp":
             c, pre, rs = payload
             ctx.count("tie:simp")
-            if "err" in rs:
+            if alias and ("err" in rs or T.of_json(a["q"]) != rs["q"]):
+                # func_adl rewrites shared AST objects in place here (listed finding); the model is purely functional
+                ctx.count("tie:simp:shared-node-rewrite(excluded)")
+            elif "err" in rs:
                 if not a["bang"]:
                     ctx.disagreement("simplify_chained_calls", {"term": T.show(pre)}, T.show(T.of_json(a["q"])), rs)
                 else:
